@@ -941,6 +941,147 @@ def main_chain(write=True):
     return _regen(translate_chain, GEN_CHAIN, SNAP_CHAIN, write)
 
 
+HEADER_SCORE = """/-
+  GENERATED by harness/py2lean.py from the source text of /repo on every check run — do not edit.
+  `select`, `fit_score` and the loop of `cross_val_score` (model_selection.py) over an abstract estimator; Props/C12.lean proves them equal to
+  the model.  Contracts: `clone(estimator)` is a fresh copy with the same parameters (the estimator value itself here), `dispatch(f, ...)`
+  calls `f` now or later (schedule independence is C12's `schedule_independent`), `score_estimator(scoring, est, coordinates, data, weights)`
+  is the model's `scoreEstimator` of `est.predict(coordinates)`, `estimator.score` is `score_estimator("r2", ...)`.
+-/
+import VerdeModel.Model.Score
+namespace Verde.Gen
+open Verde
+
+"""
+GEN_SCORE = os.path.join(VERIF, "lean", "VerdeModel", "Gen", "Score.lean")
+SNAP_SCORE = os.path.join(VERIF, "lean", "VerdeModel", "GenSnapshot", "Score.lean.txt")
+
+
+def translate_score():
+    path = "verde/model_selection.py"
+    src = open(os.path.join(REPO, path)).read()
+    tree = ast.parse(src)
+    out = []
+
+    def body_of(fn):
+        return [b for b in fn.body if not (isinstance(b, ast.Expr) and isinstance(b.value, ast.Constant))]
+
+    def head(fn, name):
+        seg = ast.get_source_segment(src, fn)
+        return f"/-- translated statement by statement from {path}:{fn.lineno}-{fn.end_lineno} ({name}), sha256 {hashlib.sha256(seg.encode()).hexdigest()[:16]} -/\n"
+
+    # ---------------------------------------------------------------- select
+    fn = find_func(tree, "select")
+    if [a.arg for a in fn.args.args] != ["arrays", "index"]:
+        _fail(fn, "select signature")
+    b = body_of(fn)
+    ok = len(b) == 2 and isinstance(b[0], ast.If) and not b[0].orelse and len(b[0].body) == 1 and isinstance(b[0].body[0], ast.Return) \
+        and _is_name(b[0].body[0].value, "arrays") and isinstance(b[0].test, ast.BoolOp) and isinstance(b[0].test.op, ast.Or) and len(b[0].test.values) == 2
+    if ok:
+        t1, t2 = b[0].test.values
+        ok = (isinstance(t1, ast.Compare) and _is_name(t1.left, "arrays") and isinstance(t1.ops[0], ast.Is) and getattr(t1.comparators[0], "value", 0) is None
+              and isinstance(t2, ast.Call) and getattr(t2.func, "id", None) == "any" and isinstance(t2.args[0], ast.GeneratorExp)
+              and isinstance(t2.args[0].elt, ast.Compare) and isinstance(t2.args[0].elt.ops[0], ast.Is) and getattr(t2.args[0].elt.comparators[0], "value", 0) is None
+              and _is_name(t2.args[0].generators[0].iter, "arrays"))
+    if not ok:
+        _fail(fn, "select: the no-arrays guard")
+    r = b[1]
+    g = r.value.args[0] if (isinstance(r, ast.Return) and isinstance(r.value, ast.Call) and getattr(r.value.func, "id", None) == "tuple"
+                            and len(r.value.args) == 1 and isinstance(r.value.args[0], ast.GeneratorExp)) else None
+    ok = g is not None and len(g.generators) == 1 and not g.generators[0].ifs and _is_name(g.generators[0].iter, "arrays") \
+        and isinstance(g.generators[0].target, ast.Name) and isinstance(g.elt, ast.Subscript) and _is_name(g.elt.slice, "index") \
+        and isinstance(g.elt.value, ast.Call) and isinstance(g.elt.value.func, ast.Attribute) and g.elt.value.func.attr == "ravel" \
+        and _is_name(g.elt.value.func.value, "np") and len(g.elt.value.args) == 1 and _is_name(g.elt.value.args[0], g.generators[0].target.id)
+    if not ok:
+        _fail(r, "select: tuple(np.ravel(i)[index] for i in arrays)")
+    out.append(head(fn, "select") +
+               "def select (arrays : Option (List (List Rat))) (index : List Nat) : Option (List (List Rat)) :=\n"
+               "  match arrays with\n"
+               "  | none => arrays      -- arrays is None, or a tuple holding a None (the canonical \"no weights\"): returned as it is\n"
+               "  | some arrays => some (arrays.map fun i => index.map fun k => i.getD k 0)      -- tuple(np.ravel(i)[index] for i in arrays)\n")
+
+    # ---------------------------------------------------------------- fit_score
+    fn = find_func(tree, "fit_score")
+    if [a.arg for a in fn.args.args] != ["estimator", "train_data", "test_data", "scoring"]:
+        _fail(fn, "fit_score signature")
+    b = body_of(fn)
+
+    def starcall(n, obj, meth, star):
+        return (isinstance(n, ast.Call) and isinstance(n.func, ast.Attribute) and _is_name(n.func.value, obj) and n.func.attr == meth
+                and len(n.args) == 1 and isinstance(n.args[0], ast.Starred) and _is_name(n.args[0].value, star) and not n.keywords)
+    ok = len(b) == 3 and isinstance(b[0], ast.Expr) and starcall(b[0].value, "estimator", "fit", "train_data")
+    if ok:
+        i = b[1]
+        ok = (isinstance(i, ast.If) and isinstance(i.test, ast.Compare) and _is_name(i.test.left, "scoring") and isinstance(i.test.ops[0], ast.Is)
+              and getattr(i.test.comparators[0], "value", 0) is None and len(i.body) == 1 and len(i.orelse) == 1
+              and isinstance(i.body[0], ast.Assign) and _is_name(i.body[0].targets[0], "score") and starcall(i.body[0].value, "estimator", "score", "test_data")
+              and isinstance(i.orelse[0], ast.Assign) and _is_name(i.orelse[0].targets[0], "score"))
+        if ok:
+            c = i.orelse[0].value
+            ok = (isinstance(c, ast.Call) and getattr(c.func, "id", None) == "score_estimator" and len(c.args) == 3 and _is_name(c.args[0], "scoring")
+                  and _is_name(c.args[1], "estimator") and isinstance(c.args[2], ast.Starred) and _is_name(c.args[2].value, "test_data") and not c.keywords)
+        ok = ok and isinstance(b[2], ast.Return) and _is_name(b[2].value, "score")
+    if not ok:
+        _fail(fn, "fit_score body")
+    out.append(head(fn, "fit_score") +
+               "def fitScore {σ : Type} (estimator : Est σ) (train_data test_data : Rows) (scoring : Option Scoring) : Option Rat :=\n"
+               "  let fitted := estimator.fit train_data      -- estimator.fit(*train_data)\n"
+               "  match scoring with\n"
+               "  | none => scoreEstimator Scoring.r2 (estimator.predict fitted test_data.coords) test_data      -- estimator.score(*test_data)\n"
+               "  | some scoring => scoreEstimator scoring (estimator.predict fitted test_data.coords) test_data      -- score_estimator(scoring, estimator, *test_data)\n")
+
+    # ---------------------------------------------------------------- cross_val_score: fit_args and the loop over the splits
+    fn = find_func(tree, "cross_val_score")
+    b = body_of(fn)
+    fa = [x for x in b if isinstance(x, ast.Assign) and _is_name(x.targets[0], "fit_args")]
+    loops = [x for x in b if isinstance(x, ast.For)]
+    if len(fa) != 1 or len(loops) != 1 or not (isinstance(fa[0].value, ast.Tuple) and [getattr(e, "id", None) for e in fa[0].value.elts] == ["coordinates", "data", "weights"]):
+        _fail(fn, "cross_val_score: fit_args = (coordinates, data, weights) and one loop")
+    lp = loops[0]
+    ok = (isinstance(lp.target, ast.Tuple) and len(lp.target.elts) == 2 and all(isinstance(e, ast.Name) for e in lp.target.elts)
+          and isinstance(lp.iter, ast.Call) and isinstance(lp.iter.func, ast.Attribute) and _is_name(lp.iter.func.value, "cv") and lp.iter.func.attr == "split"
+          and len(lp.body) == 2 and not lp.orelse)
+    first, second = (lp.target.elts[0].id, lp.target.elts[1].id) if ok else (None, None)
+    if ok:
+        a0, a1 = lp.body
+        call = a0.value if isinstance(a0, ast.Assign) and _is_name(a0.targets[0], "score") else None
+        ok = (isinstance(call, ast.Call) and isinstance(call.func, ast.Call) and getattr(call.func.func, "id", None) == "dispatch"
+              and len(call.func.args) == 1 and _is_name(call.func.args[0], "fit_score") and len(call.args) == 4 and not call.keywords
+              and isinstance(call.args[0], ast.Call) and getattr(call.args[0].func, "id", None) == "clone" and _is_name(call.args[0].args[0], "estimator")
+              and _is_name(call.args[3], "scoring")
+              and isinstance(a1, ast.Expr) and isinstance(a1.value, ast.Call) and isinstance(a1.value.func, ast.Attribute)
+              and _is_name(a1.value.func.value, "scores") and a1.value.func.attr == "append" and _is_name(a1.value.args[0], "score"))
+
+    def sel_index(n):
+        """tuple(select(i, <index>) for i in fit_args) -> the index variable used"""
+        if not (isinstance(n, ast.Call) and getattr(n.func, "id", None) == "tuple" and len(n.args) == 1 and isinstance(n.args[0], ast.GeneratorExp)):
+            return None
+        g = n.args[0]
+        if not (len(g.generators) == 1 and _is_name(g.generators[0].iter, "fit_args") and isinstance(g.generators[0].target, ast.Name) and not g.generators[0].ifs
+                and isinstance(g.elt, ast.Call) and getattr(g.elt.func, "id", None) == "select" and len(g.elt.args) == 2
+                and _is_name(g.elt.args[0], g.generators[0].target.id) and isinstance(g.elt.args[1], ast.Name)):
+            return None
+        return g.elt.args[1].id
+    tr_idx = sel_index(call.args[1]) if ok else None
+    te_idx = sel_index(call.args[2]) if ok else None
+    if not ok or tr_idx not in (first, second) or te_idx not in (first, second):
+        _fail(lp, "cross_val_score: the loop over cv.split")
+    sel = lambda idx: (f"⟨(Gen.select (some fit_args.coords) {idx}).getD [], (Gen.select (some fit_args.data) {idx}).getD [], "  # noqa: E731
+                       f"Gen.select fit_args.weights {idx}⟩")
+    out.append(head(fn, "cross_val_score") +
+               "def crossValScore {σ : Type} (estimator : Est σ) (fit_args : Rows) (cv_split : List (List Nat × List Nat)) (scoring : Option Scoring) : List (Option Rat) :=\n"
+               f"  cv_split.map fun (({first}, {second}) : List Nat × List Nat) =>      -- for {first}, {second} in cv.split(...): ...; scores.append(score)\n"
+               "    Gen.fitScore estimator      -- dispatch(fit_score, ...)(clone(estimator), ...)\n"
+               f"      {sel(tr_idx)}      -- tuple(select(i, {tr_idx}) for i in fit_args)\n"
+               f"      {sel(te_idx)}      -- tuple(select(i, {te_idx}) for i in fit_args)\n"
+               "      scoring\n")
+    return HEADER_SCORE + "\n".join(out) + "\nend Verde.Gen\n"
+
+
+def main_score(write=True):
+    return _regen(translate_score, GEN_SCORE, SNAP_SCORE, write)
+
+
 HEADER_TREND = """/-
   GENERATED by harness/py2lean.py from the source text of /repo on every check run — do not edit.
   `polynomial_power_combinations` (trend.py); Props/C03.lean proves it equal to the model's explicit monomial order.
